@@ -1,4 +1,4 @@
-(* Extraction of the C07 layout / field id models (and the C06 protocol automaton, C20 search model)
+(* Extraction of the C07 layout / field id models
    for the correspondence driver ocaml/layout/driver.ml. *)
 From Coq Require Extraction.
 From Coq Require Import ExtrOcamlBasic.
